@@ -1,14 +1,14 @@
 (* C10 at code level: the info-byte functions of share/info_byte.go as printed into the REGENERATED
    GoLite program (Gen/Generated.v, from the Go source on every run) compute what the hand-written
    model computes (ShareFmt.new_info_byte / info_version / info_start, Helpers.parse_info_byte).
-   Statements only; proofs in GenMoreProofs.v.
+   Statements only; proofs in GenMoreBase GenMoreC10.v.
 
    Encoding: a Go byte / uint8 is the integer 0..255 (byte_Z i = Z.of_N (b2n i) for a model byte),
    bool is 0/1, error is 0 (nil) / 1 (non-nil). *)
 From Coq Require Import List ZArith NArith String.
 From GS.Model Require Import Base ShareFmt Helpers GoLite.
 From GS.Gen Require Import Generated.
-From GS.GenProofs Require Import GenLink GenMoreProofs.
+From GS.GenProofs Require Import GenLink GenMoreBase GenMoreC10.
 Open Scope string_scope. Open Scope Z_scope.
 
 (* share.NewInfoByte(version uint8, isSequenceStart bool) (InfoByte, error): every uint8 and both flags *)
